@@ -271,6 +271,14 @@ public:
      */
     std::string referenceHeading() const;
 
+#ifdef HSORBY_LIBCELLML_VERIF
+    /**
+     * Verification hook (compiled only with -DHSORBY_LIBCELLML_VERIF): create an issue with an arbitrary
+     * reference rule, level and description, which the public API offers no way to do.
+     */
+    static IssuePtr verifCreate(ReferenceRule referenceRule, Level level, const std::string &description);
+#endif
+
 private:
     Issue(); /**< Constructor, @private. */
 
